@@ -108,6 +108,9 @@ type modelStats struct {
 	WF      int            `json:"wf"`
 	KF      map[string]int `json:"kf"`
 	Errors  int            `json:"errors"`
+	Viol    int            `json:"viol"`   // pred=f and not an instance of a known finding
+	CBreak  int            `json:"cbreak"` // pred=t, corr=neq outside known-finding regions
+	KFI     map[string]int `json:"kfi"`    // failing exactly as recorded, per finding id
 }
 
 type kindResult struct {
@@ -121,6 +124,7 @@ type kindResult struct {
 }
 
 type badCase struct {
+	Prio    int    `json:"prio"` // 0 violation, 1 correspondence break, 2 protocol error, 3 known-finding instance
 	Kind    string `json:"kind"`
 	Index   int    `json:"index"`
 	Verdict string `json:"verdict"`
@@ -149,7 +153,7 @@ type workerOut struct {
 	fail    string
 }
 
-const maxBadPerWorker = 64
+const maxBadPerBucket = 48
 
 func runWorker(w, workers int, sel []Kind, seed uint64, tier string, scale float64, model string) *workerOut {
 	out := &workerOut{
@@ -178,6 +182,7 @@ func runWorker(w, workers int, sel []Kind, seed uint64, tier string, scale float
 		defer wg.Done()
 		sc := bufio.NewScanner(stdout)
 		sc.Buffer(make([]byte, 1<<20), 1<<28)
+		var bucket [4]int
 		for sc.Scan() {
 			line := sc.Text()
 			if strings.HasPrefix(line, "# ") {
@@ -185,12 +190,22 @@ func runWorker(w, workers int, sel []Kind, seed uint64, tier string, scale float
 				continue
 			}
 			out.badN++
-			if len(out.bad) < maxBadPerWorker {
-				verdict, orig := line, ""
-				if k := strings.Index(line, " || "); k >= 0 {
-					verdict, orig = line[:k], line[k+4:]
-				}
-				bc := badCase{Verdict: verdict, Line: orig, Index: -1}
+			verdict, orig := line, ""
+			if k := strings.Index(line, " || "); k >= 0 {
+				verdict, orig = line[:k], line[k+4:]
+			}
+			prio := 2
+			switch {
+			case strings.Contains(verdict, "pred=f") && strings.Contains(verdict, "corr=eq") && !strings.Contains(verdict, "kf=-"):
+				prio = 3
+			case strings.Contains(verdict, "pred=f"):
+				prio = 0
+			case strings.Contains(verdict, "corr=neq"):
+				prio = 1
+			}
+			if bucket[prio] < maxBadPerBucket {
+				bucket[prio]++
+				bc := badCase{Prio: prio, Verdict: verdict, Line: orig, Index: -1}
 				f := strings.SplitN(orig, " ", 3)
 				if len(f) >= 2 {
 					bc.Kind = f[0]
@@ -223,7 +238,7 @@ func runWorker(w, workers int, sel []Kind, seed uint64, tier string, scale float
 			for _, t := range c.tags {
 				tg[t]++
 			}
-			if n := out.cases[k.Name]; (n <= 2 || n%997 == 0) && len(out.samples[k.Name]) < 6 && len(line) < 600 {
+			if n := out.cases[k.Name]; (n <= 2 || n%997 == 0) && len(out.samples[k.Name]) < 6 && len(line) < 2000 {
 				out.samples[k.Name] = append(out.samples[k.Name], line)
 			}
 		}
@@ -241,7 +256,7 @@ func runWorker(w, workers int, sel []Kind, seed uint64, tier string, scale float
 // "# kind=<k> total=.. neq=.. predf=.. wf=.. err=.. kf:<name>=<n> ..."
 func parseSummary(line string, out *workerOut) {
 	f := strings.Fields(line[2:])
-	ms := &modelStats{KF: map[string]int{}}
+	ms := &modelStats{KF: map[string]int{}, KFI: map[string]int{}}
 	kind := ""
 	for _, kv := range f {
 		p := strings.SplitN(kv, "=", 2)
@@ -262,6 +277,12 @@ func parseSummary(line string, out *workerOut) {
 			ms.WF = n
 		case p[0] == "err":
 			ms.Errors = n
+		case p[0] == "viol":
+			ms.Viol = n
+		case p[0] == "cbreak":
+			ms.CBreak = n
+		case strings.HasPrefix(p[0], "kfi:"):
+			ms.KFI[p[0][4:]] = n
 		case strings.HasPrefix(p[0], "kf:"):
 			ms.KF[p[0][3:]] = n
 		}
@@ -305,6 +326,8 @@ func main() {
 		}
 	case "run":
 		cmdRun(os.Args[2:])
+	case "consts":
+		cmdConsts(os.Args[2:])
 	case "replay":
 		cmdReplay(os.Args[2:])
 	default:
@@ -326,7 +349,7 @@ func cmdRun(args []string) {
 	fs.Parse(args)
 	sel := selectKinds(*props, *names)
 	t0 := time.Now()
-	res := &result{Seed: *seed, Tier: *tier, Scale: *scale, Kinds: map[string]*kindResult{}}
+	res := &result{Seed: *seed, Tier: *tier, Scale: *scale, Kinds: map[string]*kindResult{}, Bad: []badCase{}}
 	if len(sel) == 0 {
 		res.Failed = "no kinds selected"
 	}
@@ -342,7 +365,7 @@ func cmdRun(args []string) {
 	}
 	wg.Wait()
 	for _, k := range sel {
-		kr := &kindResult{Prop: k.Prop, Tags: map[string]int{}, Model: modelStats{KF: map[string]int{}}}
+		kr := &kindResult{Prop: k.Prop, Samples: []string{}, Tags: map[string]int{}, Model: modelStats{KF: map[string]int{}, KFI: map[string]int{}}}
 		all := map[uint64]bool{}
 		for _, o := range outs {
 			kr.Cases += o.cases[k.Name]
@@ -365,8 +388,13 @@ func cmdRun(args []string) {
 				kr.Model.PredF += ms.PredF
 				kr.Model.WF += ms.WF
 				kr.Model.Errors += ms.Errors
+				kr.Model.Viol += ms.Viol
+				kr.Model.CBreak += ms.CBreak
 				for n, c := range ms.KF {
 					kr.Model.KF[n] += c
+				}
+				for n, c := range ms.KFI {
+					kr.Model.KFI[n] += c
 				}
 			}
 		}
@@ -389,9 +417,14 @@ func cmdRun(args []string) {
 		}
 	}
 	// smallest failing cases first: the cheapest form of shrinking
-	sort.SliceStable(res.Bad, func(i, j int) bool { return len(res.Bad[i].Line) < len(res.Bad[j].Line) })
-	if len(res.Bad) > 200 {
-		res.Bad = res.Bad[:200]
+	sort.SliceStable(res.Bad, func(i, j int) bool {
+		if res.Bad[i].Prio != res.Bad[j].Prio {
+			return res.Bad[i].Prio < res.Bad[j].Prio
+		}
+		return len(res.Bad[i].Line) < len(res.Bad[j].Line)
+	})
+	if len(res.Bad) > 300 {
+		res.Bad = res.Bad[:300]
 	}
 	res.WallS = time.Since(t0).Seconds()
 	js, _ := json.MarshalIndent(res, "", " ")
